@@ -1,6 +1,167 @@
+(* C11 property theorems: the implementation-shaped model of Model.v (front NaN padding, row-major
+   reshape, column nanmean, tiling, step-1 indexing; moving-cutoff windows; normal equations)
+   equals the textbook definitions.  Statements only, each closed by `exact`. *)
 From Coq Require Import ZArith QArith List Bool.
 Require Import SkV.Lib.Base SkV.Lib.ZRange SkV.C11.Model SkV.C11.Proofs.
 Import ListNotations.
 Open Scope Z_scope.
-Theorem C11_stub : True. Proof. exact stub_true. Qed.
-Print Assumptions C11_stub.
+
+(* window length per strategy, and exactly the documented rejections *)
+Theorem C11_window_length_resolution : forall s sp wlo n,
+  (forall w, resolve_wl s sp wlo n = Ok w ->
+     w = documented_wl s sp wlo n /\ w <= n /\ ~ documented_reject s sp wlo) /\
+  (resolve_wl s sp wlo n = Err <-> (documented_reject s sp wlo \/ n < documented_wl s sp wlo n)).
+Proof. intros s sp wlo n. split; [intro w; exact (resolve_ok s sp wlo n w)|exact (resolve_err s sp wlo n)]. Qed.
+Print Assumptions C11_window_length_resolution.
+
+(* strategy "last", sp = 1: every step gets the last observation *)
+Theorem C11_naive_last : forall ys wlo fh, 1 <= zlen ys -> all_pos fh ->
+  naive_predict SLast 1 wlo ys fh = Ok (map (fun _ => znth ys (zlen ys - 1)) fh).
+Proof. exact naive_last. Qed.
+Print Assumptions C11_naive_last.
+
+(* strategy "last", sp > 1: step h gets the observation at THE position of the last season that is
+   congruent to the target position n-1+h, for every horizon (also beyond one season) *)
+Theorem C11_naive_seasonal_last_aligned : forall ys sp wlo fh,
+  1 < sp <= zlen ys -> sorted_lt fh -> all_pos fh ->
+  naive_predict SLast sp wlo ys fh =
+    Ok (map (fun h => znth ys (last_same_season (zlen ys) sp h)) fh) /\
+  forall h, let p := last_same_season (zlen ys) sp h in
+    zlen ys - sp <= p <= zlen ys - 1 /\ congb sp p (zlen ys - 1 + h) = true /\
+    (forall p', zlen ys - sp <= p' <= zlen ys - 1 -> congb sp p' (zlen ys - 1 + h) = true -> p' = p).
+Proof.
+  intros ys sp wlo fh Hsp Hs Hp. split; [exact (naive_seasonal_last ys sp wlo fh Hsp Hs Hp)|].
+  intro h. apply last_same_season_spec. destruct Hsp as [Hsp _].
+  exact (Z.lt_trans 0 1 sp Z.lt_0_1 Hsp).
+Qed.
+Print Assumptions C11_naive_seasonal_last_aligned.
+
+(* strategy "mean", sp = 1: the mean of the non-missing observations among the last wl *)
+Theorem C11_naive_mean : forall ys wlo wl fh,
+  resolve_wl SMean 1 wlo (zlen ys) = Ok wl -> 1 <= wl -> all_pos fh ->
+  naive_predict SMean 1 wlo ys fh =
+  Ok (map (fun _ => nanmean (skipn (Z.to_nat (zlen ys - wl)) ys)) fh).
+Proof. exact naive_mean. Qed.
+Print Assumptions C11_naive_mean.
+
+(* strategy "mean", sp > 1: step h gets the mean of the non-missing observations among the last wl
+   whose position is congruent to the target position n-1+h - for EVERY window length wl, multiple
+   of sp or not, and every horizon *)
+Theorem C11_naive_seasonal_mean_aligned : forall ys sp wlo wl fh,
+  1 < sp -> resolve_wl SMean sp wlo (zlen ys) = Ok wl -> 1 <= wl -> sorted_lt fh -> all_pos fh ->
+  naive_predict SMean sp wlo ys fh =
+  Ok (map (fun h => nanmean (sel (fun p => congb sp p (zlen ys - 1 + h)) (zlen ys - wl)
+                                 (skipn (Z.to_nat (zlen ys - wl)) ys))) fh).
+Proof. exact naive_seasonal_mean_aligned. Qed.
+Print Assumptions C11_naive_seasonal_mean_aligned.
+
+(* the same on the window itself (what `_predict_last_window` sees): positions p of the window
+   congruent to wl-1+h *)
+Theorem C11_seasonal_mean_kernel_any_window_length : forall sp wl w hs,
+  1 < sp -> zlen w = wl -> sorted_lt hs -> all_pos hs ->
+  kernel SMean sp wl w hs =
+  Ok (map (fun h => nanmean (sel (fun p => congb sp p (wl - 1 + h)) 0 w)) hs).
+Proof. exact kernel_seasonal_mean. Qed.
+Print Assumptions C11_seasonal_mean_kernel_any_window_length.
+
+(* strategy "drift": the straight line through the first and last observation of the window,
+   evaluated at the target position; a missing end point is an error *)
+Theorem C11_naive_drift : forall ys sp wlo wl a b fh,
+  resolve_wl SDrift sp wlo (zlen ys) = Ok wl -> 2 <= wl ->
+  znth ys (zlen ys - wl) = Some a -> znth ys (zlen ys - 1) = Some b -> all_pos fh ->
+  naive_predict SDrift sp wlo ys fh = Ok (map (fun h => Some (drift_value wl a b h)) fh) /\
+  forall h, (drift_value wl a b h == line (zlen ys - wl) (zlen ys - 1) a b (zlen ys - 1 + h))%Q.
+Proof. exact naive_drift. Qed.
+Print Assumptions C11_naive_drift.
+
+Theorem C11_line_through_end_points : forall x0 x1 a b, x0 <> x1 ->
+  (line x0 x1 a b x0 == a)%Q /\ (line x0 x1 a b x1 == b)%Q.
+Proof. intros x0 x1 a b H. split; [exact (line_through_first x0 x1 a b)|exact (line_through_last x0 x1 a b H)]. Qed.
+Print Assumptions C11_line_through_end_points.
+
+Theorem C11_naive_drift_missing_end_point : forall sp wl w hs,
+  2 <= wl -> zlen w = wl -> all_nan w = false -> (znth w 0 = None \/ znth w (wl - 1) = None) ->
+  kernel SDrift sp wl w hs = Err.
+Proof. exact kernel_drift_missing_end. Qed.
+Print Assumptions C11_naive_drift_missing_end_point.
+
+(* in-sample steps: the forecast for position q = n-1+r (r <= 0) is the one-step-ahead forecast made
+   from the first q observations only (moving cutoff), with the window length resolved at fit;
+   mixed horizons are served step by step in-sample, then out-of-sample *)
+Theorem C11_naive_in_sample : forall s sp wl ys r, 0 <= wl -> r <= 0 -> 0 <= zlen ys - 1 + r ->
+  naive_predict_wl s sp wl ys [r] =
+  naive_predict_wl s sp wl (firstn (Z.to_nat (zlen ys - 1 + r)) ys) [1].
+Proof. exact predict_in_sample. Qed.
+Print Assumptions C11_naive_in_sample.
+
+Theorem C11_naive_mixed_horizon : forall s sp wl ys fh,
+  naive_predict_wl s sp wl ys fh =
+  rconcat (map (fun r => naive_predict_wl s sp wl ys [r]) (filter (fun r => r <=? 0) fh)
+           ++ match filter (fun r => 0 <? r) fh with
+              | [] => []
+              | oos => [naive_predict_wl s sp wl ys oos]
+              end).
+Proof. exact predict_split. Qed.
+Print Assumptions C11_naive_mixed_horizon.
+
+(* polynomial trend: coefficients satisfying the normal equations minimise the squared error *)
+Theorem C11_normal_equations_minimise : forall k0 b pts, normal_ok k0 b pts = true ->
+  forall b', length b' = length b -> (sse k0 b pts <= sse k0 b' pts)%Q.
+Proof. exact normal_eq_minimises. Qed.
+Print Assumptions C11_normal_equations_minimise.
+
+(* partial: WHENEVER the model's fit returns coefficients they are the least-squares polynomial of
+   the requested degree (all degrees, both intercept options) and predict evaluates it at the
+   requested positions, in-sample or out-of-sample; that the elimination succeeds whenever the
+   solution is unique is not proved (observed on every correspondence case) *)
+Theorem C11_poly_is_lsq_partial : forall degree ic ys fh vals,
+  poly_predict degree ic ys fh = Ok vals ->
+  exists b v, all_some ys = Some v /\ length b = poly_m degree ic /\
+    (forall b', length b' = length b ->
+       (sse (poly_k0 ic) b (points v) <= sse (poly_k0 ic) b' (points v))%Q) /\
+    vals = map (fun r => Some (pval (poly_k0 ic) b (inject_Z (zlen ys - 1 + r)))) fh.
+Proof.
+  intros degree ic ys fh vals H. destruct (poly_predict_evaluates degree ic ys fh vals H) as [b [Hf Hv]].
+  destruct (poly_is_lsq degree ic ys b Hf) as [v [Hv1 [Hv2 Hv3]]].
+  exists b, v. exact (conj Hv1 (conj Hv2 (conj Hv3 Hv))).
+Qed.
+Print Assumptions C11_poly_is_lsq_partial.
+
+(* degree <= 1 in closed form: the normal equations are the textbook equations of the mean, the OLS
+   line (slope * (N Stt - St^2) = N Sty - St Sy, intercept * N = Sy - slope * St) and the line
+   through the origin *)
+Theorem C11_poly_degree1_is_ols_line : forall a s pts, normal_ok 0 [a; s] pts = true ->
+  let N := sumf (fun _ => 1%Q) pts in
+  let St := sumf (fun p => fst p) pts in let Sy := sumf (fun p => snd p) pts in
+  let Stt := sumf (fun p => fst p * fst p)%Q pts in let Sty := sumf (fun p => fst p * snd p)%Q pts in
+  (s * (N * Stt - St * St) == N * Sty - St * Sy /\ a * N == Sy - s * St)%Q.
+Proof. exact line_normal_equations. Qed.
+Print Assumptions C11_poly_degree1_is_ols_line.
+
+Theorem C11_poly_degree1_through_origin : forall s pts, normal_ok 1 [s] pts = true ->
+  (s * sumf (fun p => fst p * fst p) pts == sumf (fun p => fst p * snd p) pts)%Q.
+Proof. exact origin_normal_equation. Qed.
+Print Assumptions C11_poly_degree1_through_origin.
+
+Theorem C11_poly_degree0_is_mean : forall a pts, normal_ok 0 [a] pts = true ->
+  (a * sumf (fun _ => 1) pts == sumf (fun p => snd p) pts)%Q.
+Proof. exact mean_normal_equation. Qed.
+Print Assumptions C11_poly_degree0_is_mean.
+
+(* statsmodels adapters: out of the wrapped model's dense forecast g for positions
+   n-1+fh[0] .. n-1+fh[-1] exactly the requested steps are returned, in order *)
+Theorem C11_adapter_selects_requested_steps : forall n (g : Z -> oq) fh, sorted_lt fh -> fh <> [] ->
+  adapter_predict n (map g (zrange (n - 1 + zfirst fh) (n - 1 + zlast fh + 1) 1)) fh
+  = Ok (map (fun r => g (n - 1 + r)) fh).
+Proof. exact adapter_selects. Qed.
+Print Assumptions C11_adapter_selects_requested_steps.
+
+(* the hypotheses are satisfiable by a non-trivial instance: sp = 3, window of 5 (not a multiple of
+   3), a missing value, horizons beyond two seasons; and a quadratic fit exists *)
+Example C11_nonvacuous :
+  let ys := [Some 1; Some 2; Some 4; None; Some 16; Some 32; Some 64]%Q in
+  resolve_wl SMean 3 (Some 5) (zlen ys) = Ok 5 /\ sorted_lt [1; 2; 5; 7] /\
+  naive_predict SMean 3 (Some 5) ys [1; 2; 5; 7]
+    = Ok [Some 16%Q; Some (36 # 2)%Q; Some (36 # 2)%Q; Some 16%Q] /\
+  poly_fit 2 true [Some 1; Some 2; Some 4; Some 8]%Q = Ok [(21 # 20)%Q; (1 # 20)%Q; (3 # 4)%Q].
+Proof. vm_compute. repeat split; reflexivity. Qed.
